@@ -3,31 +3,29 @@ package scratch
 import (
 	"fmt"
 	"testing"
-	"time"
 
 	"github.com/rulego/streamsql"
 )
 
 func TestX(t *testing.T) {
 	for _, q := range []string{
-		"SELECT g, (sum(x)) AS a, count(*) AS c FROM stream GROUP BY g, CountingWindow(3)",
-		"SELECT g, ((sum(x))) AS a FROM stream GROUP BY g, CountingWindow(3)",
-		"SELECT g, ( sum (x) ) FROM stream GROUP BY g, CountingWindow(3)",
-		"SELECT g, (sum(x) + 1) AS a FROM stream GROUP BY g, CountingWindow(3)",
-		"SELECT g, (sum(x)) + (count(*)) AS a FROM stream GROUP BY g, CountingWindow(3)",
-		"SELECT g, (percentile(x, 0.5)) AS a FROM stream GROUP BY g, CountingWindow(3)",
-		"SELECT g, (sum((x))) AS a FROM stream GROUP BY g, CountingWindow(3)",
+		"SELECT NOT f AS r FROM stream",
+		"SELECT not f AS r FROM stream",
+		"SELECT NOT f FROM stream",
+		"SELECT null_if(x,'a') IS NULL AS r FROM stream",
+		"SELECT nullif(x,'a') IS NULL AS r FROM stream",
+		"SELECT DISTINCT ts AS x, \"a)b(\" AS y FROM stream",
+		"SELECT ts AS x, 'foo(' AS y FROM stream",
+		"SELECT ts AS x, 'sum(a)' AS y FROM stream",
 	} {
 		s := streamsql.New()
 		if err := s.Execute(q); err != nil {
 			fmt.Println(q, "ERR", err)
 			continue
 		}
-		s.AddSink(func(r []map[string]any) { fmt.Printf("%s => %v\n", q, r) })
-		for i := 0; i < 3; i++ {
-			s.Emit(map[string]any{"g": "k", "x": i + 1})
-		}
-		time.Sleep(300 * time.Millisecond)
+		r, err := s.EmitSync(map[string]any{"f": true, "ts": 5})
+		r2, err2 := s.EmitSync(map[string]any{"f": false, "x": "a", "ts": 6})
+		fmt.Printf("%s => %#v %v | %#v %v\n", q, r, err, r2, err2)
 		s.Stop()
 	}
 }
